@@ -64,8 +64,13 @@ LockReleasable(i) ==
     /\ I[i].lockDb => I[i].dpc >= 4
     /\ I[i].lockKs => I[i].ks \in {"drop", "relsup"}
 
+\* an event of an instance the trace never announced (InstOpened) - e.g. the unlock of a lock
+\* guard that belongs to no opened instance - is not a step of the specification: rejected
+EvInstOk == IF "inst" \in DOMAIN Ev THEN Ev.inst \in Inst ELSE TRUE
+
 TraceNext ==
     /\ l <= Len(TraceRecs)
+    /\ EvInstOk
     /\ \/ /\ Ev.ev = "Reset" /\ Consume
           /\ marker' = "none" /\ files' = [db |-> FALSE, jnl0 |-> FALSE, meta |-> FALSE, ks |-> FALSE]
           /\ flock' = 0 /\ att' = [a \in Inst |-> NoAtt] /\ I' = [i \in Inst |-> NoInst]
